@@ -150,9 +150,13 @@ class FakeSocket(object):
             part = fault.get('partial', 0)
             if part:
                 self._record_out(data[:min(part, len(data))])
-            st.dead = True
-            if st.server is not None:
-                st.server.kill()
+            if kind not in ('timeout', 'exc') or fault.get('fatal'):
+                # EPIPE / ECONNRESET: the connection is gone.  A time-out
+                # (peer not reading) or an arbitrary exception leaves the
+                # read side as it was.
+                st.dead = True
+                if st.server is not None:
+                    st.server.kill()
             w.fired('sendall_' + kind)
             w.fault_marks.append(('sendall', st.index, k, st.delivered_total,
                                   len(st.out_bytes), w.next_seq()))
@@ -196,6 +200,9 @@ class FakeSocket(object):
         w = st.world
         k = st.n_recv
         st.n_recv += 1
+        w.n_recv_total += 1
+        if w.n_recv_total > w.max_recvs:
+            raise SimHang('recv budget exhausted (%d)' % w.max_recvs)
         w.op('recv', st.index, k, count)
         if st.closed:
             raise OSError(errno.EBADF, 'Bad file descriptor')
@@ -652,6 +659,8 @@ class World(object):
         self.n_polls_created = 0
         self.n_poll = 0
         self.max_polls = scen.get('max_polls', 20000)
+        self.n_recv_total = 0
+        self.max_recvs = scen.get('max_recvs', 4 * self.max_polls + 20000)
         self.max_time = scen.get('max_time_us', 10 ** 12)
         self.conn_specs = [ConnSpec(c) for c in scen.get('conns', [{}])]
         self.conn_index = -1
@@ -669,6 +678,8 @@ class World(object):
         self.fault_marks = []
         self.keys_seen = []
         self.marks = []
+        self.sel_created = 0
+        self.sel_closed = 0
 
     # -- bookkeeping
     def next_seq(self):
@@ -980,6 +991,39 @@ def _masking_key():
     return CURRENT.masking_key()
 
 
+class SoloLock(object):
+    """threading.Lock for the single-threaded engine: with one thread, an
+    acquire of a held lock can never succeed - report it instead of blocking
+    the worker process for ever."""
+
+    def __init__(self):
+        self._held = False
+
+    def acquire(self, blocking=True, timeout=-1):
+        if self._held:
+            if not blocking:
+                return False
+            raise SimHang('deadlock: the only thread acquires a lock it '
+                          'already holds')
+        self._held = True
+        return True
+
+    def release(self):
+        if not self._held:
+            raise RuntimeError('release unlocked lock')
+        self._held = False
+
+    def locked(self):
+        return self._held
+
+    def __enter__(self):
+        self.acquire()
+        return self
+
+    def __exit__(self, *a):
+        self.release()
+
+
 class _ThreadingNS(object):
     """lomond.session.threading: Lock() is the simulator's lock while a
     ThreadSim scheduler is active, a real lock otherwise."""
@@ -990,6 +1034,8 @@ class _ThreadingNS(object):
         w = CURRENT
         if w is not None and w.sched is not None:
             return w.sched.make_lock()
+        if w is not None:
+            return SoloLock()
         return _ThreadingNS._real.Lock()
 
     Event = _real.Event
@@ -1021,8 +1067,19 @@ def install():
     lomond.session.threading = _ThreadingNS
     lomond.events.time = _TimeNS
     lomond.selectors.select = _SelectNS
-    lomond.session.WebsocketSession._selector_cls = \
-        lomond.selectors.PollSelector
+    class TrackedPollSelector(lomond.selectors.PollSelector):
+        """The real PollSelector; only counts construction and close()."""
+
+        def __init__(self, socket):
+            self._world = CURRENT
+            CURRENT.sel_created += 1
+            super(TrackedPollSelector, self).__init__(socket)
+
+        def close(self):
+            self._world.sel_closed += 1
+            return super(TrackedPollSelector, self).close()
+
+    lomond.session.WebsocketSession._selector_cls = TrackedPollSelector
     lomond.websocket.os = _OsNS
     if hasattr(lomond.websocket, 'threading'):
         lomond.websocket.threading = _ThreadingNS
